@@ -178,6 +178,7 @@ func piiFreeOutputs(e error, wire []byte) (names []string, outs []string) {
 	add("Redact(redact.Sprint)", obs.Redacted(obs.S(func() string { return string(redact.Sprint(e)) })))
 	add("Redact(redact %+v)", obs.Redacted(obs.Red("%+v", e)))
 	add("Redact(redact %v)", obs.Redacted(obs.Red("%v", e)))
+	add("errors.Redact", obs.S(func() string { return errors.Redact(e) }))
 	all, _ := obs.AllSafeDetails(e)
 	add("GetAllSafeDetails", strings.Join(all, "\x1e"))
 	var nodeSafe []string
